@@ -14,7 +14,8 @@ theorem repairs_as_in_source :
     (Generated.Visitors.srcFormatFunctionNamespace = (if Repair.namespaceDot then fixedFormatFunctionNamespace else oldFormatFunctionNamespace)) ∧
     (Generated.Visitors.srcEnterRangeLiteral = (if Repair.exactHops then fixedEnterRangeLiteral else oldEnterRangeLiteral)) ∧
     (Generated.Visitors.srcExitNotExpression = (if Repair.nestedNot then fixedExitNotExpression else oldExitNotExpression)) ∧
-    (Generated.Visitors.srcFormatNegationOperand = (if Repair.nestedNot then fixedFormatNegationOperand else oldFormatNegationOperand)) ∧
+    -- format.go keeps parenthesising an operand of NOT that binds looser than a comparison, a nested negation included
+    (Generated.Visitors.srcFormatNegationOperand = oldFormatNegationOperand) ∧
     (Generated.Visitors.srcEnterPropertyLookupOfPropertyExpression =
       (if Repair.chainedLookupRejected then fixedEnterPropertyLookupOfPropertyExpression else oldEnterPropertyLookupOfPropertyExpression)) ∧
     (Generated.Visitors.srcNewTokenLiteralIterator = (if Repair.spNotOperator then fixedNewTokenLiteralIterator else oldNewTokenLiteralIterator)) ∧
@@ -76,9 +77,9 @@ theorem not_not_old_and_fixed :
   decide +kernel
 
 /-- the LIVE visitor on `RETURN NOT NOT true`: outside the model (old: the defect shape) / two nested negations, written back as
-`not not true` (repaired) -/
+`not (not true)` (repaired; format.go parenthesises the inner negation) -/
 theorem not_not_live :
-    (if Repair.nestedNot then (build N notNotTree).toOption.map emit = some ["return", "not", "not", "true"]
+    (if Repair.nestedNot then (build N notNotTree).toOption.map emit = some ["return", "not", "(", "not", "true", ")"]
      else (match build N notNotTree with | .error (.unmodelled r) => r == "oC_NotExpression:repeated-NOT" | _ => false) = true) := by
   decide +kernel
 
